@@ -140,6 +140,44 @@ partial def pMany {α} (p : P α) : P (List α) := fun ts =>
     | none => none
     | some (a, rest) => (pMany p rest).map fun r => (a :: r.1, r.2)
 
+/-- one history step (see harness: `D<i> dt`, `N<i> dt`, `X<i>`, `B<i> µs`, `P<i> key val`, `A shape`, `R<i> shape`,
+    `M<i>`, `O…`) -/
+def pHOp : P (Except String Io.HOp) := do
+  let t ← tok
+  match t.toList with
+  | 'D' :: r => do
+    let i ← lift (String.ofList r).toNat?
+    let dt ← lift (parseDt (← tok))
+    pure (.ok (.setDt i dt))
+  | 'N' :: r => do            -- direct assignment `shape.dt = …`
+    let i ← lift (String.ofList r).toNat?
+    let dt ← lift (parseDt (← tok))
+    pure (.ok (.setDt i dt))
+  | 'X' :: r => do            -- `strip_dt()`
+    let i ← lift (String.ofList r).toNat?
+    pure (.ok (.setDt i none))
+  | 'B' :: r => do
+    let i ← lift (String.ofList r).toNat?
+    let b ← lift (← tok).toInt?
+    pure (.ok (.buffer i b))
+  | 'P' :: r => do
+    let i ← lift (String.ofList r).toNat?
+    let k ← lift (parseKey (← tok))
+    let v ← lift (parseVal (← tok))
+    pure (.ok (.setProp i k v))
+  | ['A'] => do
+    let s ← pShape
+    pure (s.map .append)
+  | 'R' :: r => do
+    let i ← lift (String.ofList r).toNat?
+    let s ← pShape
+    pure (s.map (.replace i))
+  | 'M' :: r => do
+    let i ← lift (String.ofList r).toNat?
+    pure (.ok (.remove i))
+  | 'O' :: _ => pure (.ok .observe)
+  | _ => lift none
+
 def pColl : P (Except String (List Io.Shape)) := do
   let ss ← pMany pShape
   pure (Io.mapExcept id ss)
@@ -371,6 +409,18 @@ open GV.Drv.C20 in
 def handleIO (op : String) (args : List String) : String :=
   match op with
   | "mk" => run pColl args fun c => withColl c showColl
+  | "hist" => run (do let _cls ← tok; let fmt ← tok; let ops ← counted pHOp; let c ← pColl; pure (fmt, ops, c)) args fun x =>
+      withColl x.2.2 fun coll =>
+        match Io.mapExcept id x.2.1 with
+        | .error e => e
+        | .ok ops =>
+          match Io.applyOps coll ops with
+          | .error e => e
+          | .ok c =>
+            if x.1 == "shp" then showExcept (showFiles showFileW) (Io.writeShp none c)
+            else if x.1 == "gpd" then showExcept showFrameW (Io.toGeopandas none c)
+            else if x.1 == "kml" then showExcept showNode (Io.toFolder "fold" c)
+            else "bad-op"
   | "shpw" => run (do let i ← pIncl; let c ← pColl; pure (i, c)) args fun ic =>
       withColl ic.2 fun coll => showExcept (showFiles showFileW) (Io.writeShp ic.1 coll)
   | "shpchan" => run (do let i ← pIncl; let c ← pColl; pure (i, c)) args fun ic =>
